@@ -11,7 +11,7 @@ nice cargo nextest run --workspace --no-fail-fast --tool-config-file pb:/w/lib/n
 python3 /verif/tools/baseline_cmp.py target/nextest/pb/junit.xml >> $L 2>&1; echo "suite_regressions_exit=$?" >> $L
 cp /verif/fixes/demos/verif_demo_*.rs oxidize-pdf-core/tests/
 for d in /verif/fixes/demos/verif_demo_*_unit.diff; do git apply $d 2>>$L || echo "unit demo $d does not apply" >> $L; done
-for t in a b c d e f g h; do
+for t in $(ls /verif/fixes/demos/verif_demo_?.rs | sed -E 's/.*verif_demo_(.)\.rs/\1/'); do
   echo "== demo $t" >> $L
   nice cargo test --offline -j 8 -p oxidize-pdf --test verif_demo_$t >> $L 2>&1; echo "demo_${t}_exit=$?" >> $L
 done
